@@ -904,6 +904,162 @@ def get_param_as_list(v):
     v.cover('transformed')
 
 
+
+# ---------------------------------------------------------------------------
+# parse_query_string: the loop body on 1..3 symbolic fields against a reference fold
+
+DEC = z3.Function('falcon.uri.decode', _S, _S)
+PQS = URI + ':parse_query_string'
+
+
+def _has(t, sub):
+    return z3.Contains(t, z3.StringVal(sub))
+
+
+def decode_ref(ctx, s):
+    """falcon.util.uri.decode (contract of C10): a total function str -> str, the identity on strings without '+' and '%'."""
+    if not sym(s):
+        import importlib
+
+        return importlib.import_module(URI).decode(s)
+    r = DEC(s.t)
+    # a comma in the decoded text comes from a literal comma or from the escape %2C (fact about percent-decoding; only sharpens counter-models)
+    ctx.assume(mk_bool(z3.Implies(_has(r, ','), z3.Or(_has(s.t, ','), _has(s.t, '%2C'), _has(s.t, '%2c')))))
+    return mk_str(z3.If(z3.Or(_has(s.t, '+'), _has(s.t, '%')), r, s.t), 'str')
+
+
+def _split_model(ctx, s, sep, maxsplit):
+    """str.split(sep) (one-character separator): the sep-free pieces whose sep-join is the string.
+
+    The query string itself is '&'.join(fields) by construction, so its split is the field list.  Any other
+    string is split into at most `max_pieces` pieces; strings with more separators are NOT explored (bound, see NOT_DECIDED).
+    """
+    g = ctx.ghost
+    if maxsplit != -1 or not isinstance(sep, str) or len(sep) != 1:
+        raise Unreached('split(%r, %r) on a symbolic string' % (sep, maxsplit))
+    if g.get('qs') is s and sep == '&':
+        return list(g['fields'])
+    sp = z3.StringVal(sep)
+    pieces, rest = [], s.t
+    for _ in range(g.get('max_pieces', 2) - 1):
+        if not ctx.branch(z3.Contains(rest, sp), 'split%s:another-piece' % sep):
+            break
+        i = z3.IndexOf(rest, sp, 0)
+        pieces.append(z3.SubString(rest, 0, i))
+        rest = z3.SubString(rest, i + 1, z3.Length(rest))
+    else:
+        ctx.assume(mk_bool(z3.Not(z3.Contains(rest, sp))))  # BOUND on the number of pieces
+    pieces.append(rest)
+    return [mk_str(p, s.kind) for p in pieces]
+
+
+def _parser_setup(reg, ex):
+    ex.split_handler = _split_model
+    reg.stubs[URI + ':decode'] = _decode_stub
+
+
+def _decode_stub(I, s, unquote_plus=True):
+    if unquote_plus is not True:
+        raise Unreached('decode(unquote_plus=False) inside the query parser')
+    return decode_ref(I.ctx, s)
+
+
+def contains(s, sub):
+    return s.contains(sub) if isinstance(s, SStr) else (sub in s)
+
+
+def first_eq_split(field):
+    """Split at the first '=': (name, value); no '=' -> (field, '')."""
+    k, _, val = field.partition('=')
+    return k, val
+
+
+def reference_fold(v, fields, keep_blank, csv):
+    """The form-urlencoded reference reading of the statement, as an insertion-ordered association list."""
+    ctx = v.ctx
+    acc = []
+    for field in fields:
+        name, value = first_eq_split(field)
+        if Len(value) == 0:
+            # blank values kept or dropped per option; a field with neither name nor value is nothing at all
+            if not keep_blank:
+                continue
+            if Len(name) == 0:
+                continue
+        key = decode_ref(ctx, name)
+        if csv and contains(value, ','):
+            # literal commas only: the split happens before decoding
+            pieces = value.split(',')
+            if not keep_blank:
+                pieces = [p for p in pieces if Len(p) != 0]
+            new, new_is_list = [decode_ref(ctx, p) for p in pieces], True
+        else:
+            new, new_is_list = decode_ref(ctx, value), False
+        slot = None
+        for e in acc:
+            if e[0] == key:
+                slot = e
+                break
+        if slot is None:
+            acc.append([key, new])
+            continue
+        old = slot[1] if isinstance(slot[1], list) else [slot[1]]
+        slot[1] = old + (new if new_is_list else [new])
+    return acc
+
+
+def value_eq(a, b):
+    if isinstance(a, list) or isinstance(b, list):
+        return list_eq(a, b)
+    return str_eq(a, b)
+
+
+def mapping_eq(result, acc):
+    """The dict `result` is the mapping given by the association list `acc` (keys pairwise distinct on this path)."""
+    if not isinstance(result, dict) or len(result) != len(acc):
+        return False
+    items = list(result.items())
+    return And(*[Or(*[And(str_eq(rk, k), value_eq(rv, val)) for rk, rv in items]) for k, val in acc])
+
+
+def _parse_query_string(v):
+    n = v.choose(3, 'fields') + 1
+    keep_blank = bool(v.choose(2, 'keep_blank'))
+    csv = bool(v.choose(2, 'csv'))
+    fields = [v.str('field%d' % i) for i in range(n)]
+    for f in fields:
+        v.assume(Not(contains(f, '&')))
+    qs = fields[0]
+    for f in fields[1:]:
+        qs = qs + '&' + f
+    if not v.concrete:
+        v.ctx.ghost.update(qs=qs, fields=fields, max_pieces=3 if n == 1 else 2)
+    if v.choose(2, 'options-by-keyword'):
+        out = v.call(qs, keep_blank=keep_blank, csv=csv)
+    else:
+        out = v.call(qs, keep_blank, csv)
+    v.check('parsing-never-raises', out.exc is None)
+    if out.exc is not None:
+        return
+    acc = reference_fold(v, fields, keep_blank, csv)
+    v.check('mapping-equals-the-reference-reading', mapping_eq(out.value, acc))
+    if len(acc) == 0:
+        v.cover('nothing-kept')
+    if any(isinstance(val, list) and len(val) == 0 for _, val in acc):
+        v.cover('empty-list-value')  # `a=,` with csv on and blanks dropped: the key is kept with []
+    if any(isinstance(val, list) and len(val) >= 2 for _, val in acc):
+        v.cover('list-value')
+    if len(acc) == n:
+        v.cover('all-names-distinct')
+
+
+for _n in range(3):
+    for _k in range(2):
+        for _c in range(2):
+            harness(PROP, PQS, name='parse_query_string[fields=%d,keep_blank=%d,csv=%d]' % (_n + 1, _k, _c), setup=_parser_setup,
+                    fix={'fields': _n, 'keep_blank': _k, 'csv': _c}, max_paths=200000)(_parse_query_string)
+
+
 ASSUMPTIONS = []
 NOT_DECIDED = []
 TRUSTED = []
